@@ -134,7 +134,7 @@ func derive(in In) expect {
 		}
 		ex.text = text[:d] + text[d+1:]
 		ex.blocks, ex.mustEqual = n, allTrue(n)
-		if o := lay.Owner[d]; o >= 0 && d != lay.TrailerNL[o] {
+		if o := lay.Owner(d); o >= 0 && d != lay.TrailerNL[o] {
 			ex.mustEqual[o] = false
 		}
 		ex.features = append(ex.features, "deleted-byte")
@@ -145,10 +145,10 @@ func derive(in In) expect {
 				rule = &substRules[i]
 			}
 		}
-		if rule == nil || in.Pos < 0 || in.Pos >= len(text) || lay.Owner[in.Pos] < 0 {
+		if rule == nil || in.Pos < 0 || in.Pos >= len(text) || lay.Owner(in.Pos) < 0 {
 			return expect{}
 		}
-		o := lay.Owner[in.Pos]
+		o := lay.Owner(in.Pos)
 		old, nw := rule.Old, rule.New
 		if rule.DateTok >= 0 {
 			toks := in.Doc.Entries[o].Date.tokens()
@@ -343,11 +343,64 @@ func record(st *mc.Stats, scen string, in In, sampleIf bool) {
 	}
 }
 
-func pickEntry(x *mc.X, i int) Pick {
-	l := func(s string) string { return fmt.Sprintf("e%d.%s", i, s) }
-	return Pick{Source: x.Deviate(len(altSource), l("source")), Version: x.Deviate(2, l("version")), Dists: x.Deviate(len(altDists), l("dists")),
-		Opts: x.Deviate(len(altOpts), l("options")), Body: x.Deviate(len(altBody), l("body")), Before: x.Deviate(2, l("blank-before-body")),
-		After: x.Deviate(2, l("blank-after-body")), Maint: x.Deviate(len(altMaint), l("maintainer")), Date: x.Deviate(len(altDate), l("date"))}
+var entryLabels = func() (out [3]map[string]string) {
+	for i := range out {
+		out[i] = map[string]string{}
+		for _, s := range []string{"source", "version", "dists", "options", "body", "blank-before-body", "blank-after-body", "maintainer", "date"} {
+			out[i][s] = fmt.Sprintf("e%d.%s", i, s)
+		}
+	}
+	return
+}()
+
+// dev is the Deviate source of the model tree. To spread one tree over many shards, the executions are
+// partitioned by their FIRST non-default answer: a shard forces the default at every point before point
+// firstPoint, forces alternative firstAlt there, and lets the explorer enumerate the points after it with the
+// remaining budget. firstPoint < 0 is the single all-default execution. With x == nil it only records the
+// number of alternatives of each point (dry run used to lay out the shards).
+type dev struct {
+	x                    *mc.X
+	idx                  int
+	firstPoint, firstAlt int
+	ns                   []int
+}
+
+func (c *dev) ask(n int, label string) int {
+	i := c.idx
+	c.idx++
+	if c.x == nil {
+		c.ns = append(c.ns, n)
+		return 0
+	}
+	switch {
+	case c.firstPoint < 0 || i < c.firstPoint:
+		return 0
+	case i == c.firstPoint:
+		return c.firstAlt
+	}
+	return c.x.Deviate(n, label)
+}
+
+// treeDoc asks every deviation point of a changelog with n entries.
+func treeDoc(c *dev, n int) (Doc, string) {
+	lead := c.ask(3, "leading-blank-lines")
+	var ps []Pick
+	var between []int
+	for i := 0; i < n; i++ {
+		l := entryLabels[i]
+		ps = append(ps, Pick{Source: c.ask(len(altSource), l["source"]), Version: c.ask(2, l["version"]), Dists: c.ask(len(altDists), l["dists"]),
+			Opts: c.ask(len(altOpts), l["options"]), Body: c.ask(len(altBody), l["body"]), Before: c.ask(2, l["blank-before-body"]),
+			After: c.ask(2, l["blank-after-body"]), Maint: c.ask(len(altMaint), l["maintainer"]), Date: c.ask(len(altDate), l["date"])})
+		if i < n-1 {
+			between = append(between, 1+c.ask(3, "blank-lines-between"))
+		}
+	}
+	trail := c.ask(3, "trailing-blank-lines")
+	dmg := ""
+	if c.ask(2, "final-newline-absent") == 1 {
+		dmg = "no-final-newline"
+	}
+	return mkDoc(ps, lead, between, trail), dmg
 }
 
 func Run(r *mc.Run) {
@@ -367,26 +420,39 @@ func Run(r *mc.Run) {
 
 	// (a) choice tree
 	type shard struct {
-		n        int
-		api, del string
+		n                    int
+		api, del             string
+		firstPoint, firstAlt int
 	}
 	var shards []shard
-	for n := 1; n <= 3; n++ {
+	for n := 3; n >= 1; n-- {
+		dry := &dev{}
+		treeDoc(dry, n)
 		for _, a := range apis {
 			for _, d := range deliveries(a) {
-				shards = append(shards, shard{n, a, d})
+				shards = append(shards, shard{n, a, d, -1, 0})
+				for p, alts := range dry.ns {
+					for alt := 1; alt < alts; alt++ {
+						shards = append(shards, shard{n, a, d, p, alt})
+					}
+				}
 			}
 		}
 	}
 	r.Scenario("model-tree", map[string]interface{}{"entries": "1..3", "deviation_bound_k": k,
 		"per_entry_points": "source(2) version(2) distributions(2) options(2) body(4) blank-before(2) blank-after(2) maintainer(2) date(4)",
 		"global_points":    "leading blank lines(0..2) blank lines between entries(1..3) trailing blank lines(0..2) final newline(present/absent)",
-		"apis":             apis, "delivery": "whole, onebyte, smallbuf(ParseOne only)"}, len(shards),
+		"apis":             apis, "delivery": "whole, onebyte, smallbuf(ParseOne only)",
+		"sharding": "executions partitioned by entry count, API, delivery and their first non-default answer"}, len(shards),
 		func(si int, st *mc.Stats) bool {
 			sh := shards[si]
 			ok := true
 			cnt := 0
-			_, div := mc.Explore(k, st, func(x *mc.X) {
+			bound := k - 1
+			if sh.firstPoint < 0 {
+				bound = 0
+			}
+			_, div := mc.Explore(bound, st, func(x *mc.X) {
 				if cnt&1023 == 0 && r.Expired() {
 					ok = false
 				}
@@ -394,23 +460,10 @@ func Run(r *mc.Run) {
 				if !ok {
 					return
 				}
-				lead := x.Deviate(3, "leading-blank-lines")
-				var ps []Pick
-				var between []int
-				for i := 0; i < sh.n; i++ {
-					ps = append(ps, pickEntry(x, i))
-					if i < sh.n-1 {
-						between = append(between, 1+x.Deviate(3, "blank-lines-between"))
-					}
-				}
-				trail := x.Deviate(3, "trailing-blank-lines")
-				dmg := ""
-				if x.Deviate(2, "final-newline-absent") == 1 {
-					dmg = "no-final-newline"
-				}
-				in := In{Doc: mkDoc(ps, lead, between, trail), API: sh.api, Delivery: sh.del, Damage: dmg}
+				doc, dmg := treeDoc(&dev{x: x, firstPoint: sh.firstPoint, firstAlt: sh.firstAlt}, sh.n)
+				in := In{Doc: doc, API: sh.api, Delivery: sh.del, Damage: dmg}
 				st.Nontrivial++
-				record(st, "model-tree", in, x.Deviations() == k && cnt%977 == 0)
+				record(st, "model-tree", in, x.Deviations() == bound && (cnt+si)%499 == 0)
 			})
 			if div != "" {
 				r.HarnessError("model-tree: %s", div)
@@ -507,7 +560,7 @@ func Run(r *mc.Run) {
 					}
 				} else {
 					for p := 0; p+len(ru.Old) <= len(text); p++ {
-						if strings.HasPrefix(text[p:], ru.Old) && lay.Owner[p] >= 0 {
+						if strings.HasPrefix(text[p:], ru.Old) && lay.Owner(p) >= 0 {
 							positions = append(positions, p)
 						}
 					}
@@ -541,8 +594,8 @@ func selfCheck(r *mc.Run) {
 	}
 	for _, doc := range fixedDocs() {
 		t, l := doc.Render()
-		if len(l.Owner) != len(t) {
-			r.HarnessError("layout owner map has %d entries for %d bytes", len(l.Owner), len(t))
+		if l.Len != len(t) || l.Owner(0) != map[bool]int{true: -1, false: 0}[doc.Lead > 0] || l.Owner(l.End[0]) != -1 || l.Owner(l.End[0]-1) != 0 {
+			r.HarnessError("layout owner self-check failed")
 		}
 		for i := range doc.Entries {
 			if t[l.TrailerNL[i]] != '\n' || !strings.HasPrefix(t[l.Start[i]:], doc.Entries[i].Source+" (") ||
